@@ -964,6 +964,7 @@ def valtab(ctx, pid):
     f = ctx.P.func(VMOD + "validate_is_node")
     N = ("p", f.params[0])
     VB, VL, VN = VMOD + "validate_is_bytes", VMOD + "validate_length", VMOD + "validate_is_node"
+    unsure_ = []
     probs = []
     seen = set()
     for p, st in pq.states(ctx, f, unroll=1):
@@ -1000,6 +1001,9 @@ def valtab(ctx, pid):
                     probs.append("a 17-item node: the value slot is not validated as bytes before the children")
                 continue
             if not el:
+                if any(t[0] == "iter" and t[1][0] in ("gen", "listcomp") and ("slice", N, None, C(16)) in t[1][2] for t in _subterms_all(rels, truth)):
+                    unsure_.append("the children of a 17-item node are iterated through a filtering comprehension over node[:16], which this table does not read")
+                    continue
                 probs.append("the children of a 17-item node are not iterated as node[:16]")
                 continue
             e = el[0]
@@ -1019,7 +1023,11 @@ def valtab(ctx, pid):
                 seen.add("child-hash")
                 want = base | {(VB, (e,)), (VL, (e, C(32)))}
             else:
-                probs.append("a child of a 17-item node is accepted without classifying it (blank / embedded / hash)")
+                if any(t[0] == "iter" and t[1][0] in ("gen", "listcomp") for t in _subterms_all(rels, truth)) or \
+                        any(isinstance(n_, (ast.GeneratorExp, ast.ListComp)) and n_.generators[0].ifs for n_ in ast.walk(f.node)):
+                    unsure_.append("the children of a 17-item node pass through a filtering comprehension, which this table does not read")
+                else:
+                    probs.append("a child of a 17-item node is accepted without classifying it (blank / embedded / hash)")
                 continue
             if out != "accept" or vcalls != want:
                 probs.append("17-item node, child case %s: validators run %s, expected %s" % (sorted(seen)[-1], sorted(tstr(("call", a, b, ()))[:40] for a, b in vcalls),
@@ -1038,7 +1046,9 @@ def valtab(ctx, pid):
     c = "table:validate_is_node"
     allc = {"blank", "kv-list", "kv-bytes", "branch-0", "child-blank", "child-list", "child-hash", "other"}
     recursive = any(isinstance(n_, ast.Call) and isinstance(n_.func, ast.Name) and n_.func.id == f.name for n_ in ast.walk(f.node))
-    if probs and not recursive:
+    if unsure_ and not probs:
+        ctx.unsure(c, f.loc(), unsure_[0])
+    elif probs and not recursive:
         ctx.unsure(c, f.loc(), "validate_is_node no longer recurses into embedded nodes (an explicit work list?): the case table is written for the recursive form (%s)" % probs[0][:80])
     elif probs:
         ctx.bad(c, f.loc(), probs[0], witness={"problems": sorted(set(probs))[:8]})
